@@ -51,11 +51,11 @@ MACROS = {
     'G': r'G|g|\\0{0,4}(?:47|67)(?:\r\n|[ \t\r\n\f])?|\\G|\\g',
     'H': r'H|h|\\0{0,4}(?:48|68)(?:\r\n|[ \t\r\n\f])?|\\H|\\h',
     'I': r'I|i|\\0{0,4}(?:49|69)(?:\r\n|[ \t\r\n\f])?|\\I|\\i',
-    'K': r'K|k|\\0{0,4}(?:4b|6b)(?:\r\n|[ \t\r\n\f])?|\\K|\\k',
-    'L': r'L|l|\\0{0,4}(?:4c|6c)(?:\r\n|[ \t\r\n\f])?|\\L|\\l',
-    'M': r'M|m|\\0{0,4}(?:4d|6d)(?:\r\n|[ \t\r\n\f])?|\\M|\\m',
-    'N': r'N|n|\\0{0,4}(?:4e|6e)(?:\r\n|[ \t\r\n\f])?|\\N|\\n',
-    'O': r'O|o|\\0{0,4}(?:4f|6f)(?:\r\n|[ \t\r\n\f])?|\\O|\\o',
+    'K': r'K|k|\\0{0,4}(?:4[bB]|6[bB])(?:\r\n|[ \t\r\n\f])?|\\K|\\k',
+    'L': r'L|l|\\0{0,4}(?:4[cC]|6[cC])(?:\r\n|[ \t\r\n\f])?|\\L|\\l',
+    'M': r'M|m|\\0{0,4}(?:4[dD]|6[dD])(?:\r\n|[ \t\r\n\f])?|\\M|\\m',
+    'N': r'N|n|\\0{0,4}(?:4[eE]|6[eE])(?:\r\n|[ \t\r\n\f])?|\\N|\\n',
+    'O': r'O|o|\\0{0,4}(?:4[fF]|6[fF])(?:\r\n|[ \t\r\n\f])?|\\O|\\o',
     'P': r'P|p|\\0{0,4}(?:50|70)(?:\r\n|[ \t\r\n\f])?|\\P|\\p',
     'R': r'R|r|\\0{0,4}(?:52|72)(?:\r\n|[ \t\r\n\f])?|\\R|\\r',
     'S': r'S|s|\\0{0,4}(?:53|73)(?:\r\n|[ \t\r\n\f])?|\\S|\\s',
@@ -63,7 +63,7 @@ MACROS = {
     'U': r'U|u|\\0{0,4}(?:55|75)(?:\r\n|[ \t\r\n\f])?|\\U|\\u',
     'V': r'V|v|\\0{0,4}(?:56|76)(?:\r\n|[ \t\r\n\f])?|\\V|\\v',
     'X': r'X|x|\\0{0,4}(?:58|78)(?:\r\n|[ \t\r\n\f])?|\\X|\\x',
-    'Z': r'Z|z|\\0{0,4}(?:5a|7a)(?:\r\n|[ \t\r\n\f])?|\\Z|\\z',
+    'Z': r'Z|z|\\0{0,4}(?:5[aA]|7[aA])(?:\r\n|[ \t\r\n\f])?|\\Z|\\z',
 }
 
 # The following productions are the complete list of tokens
